@@ -204,7 +204,11 @@ Section Printer.
           do flats <- map_res (fun p => extract_union fuel env (snd p)) distinct;
           let flat := dedupe_ir (List.concat flats) in
           match all_some (map single_string_const flat) with
-          | Some strs => Ok (Some (sort_strings (dedupe_str strs)))
+          | Some strs =>
+              (* a value admitted by every member does not narrow the union: its case would be this union again *)
+              do per_member <- map_res (disc_strings fuel) vals;
+              if existsb (fun key => forallb (mem_str key) per_member) strs then Ok None
+              else Ok (Some (sort_strings (dedupe_str strs)))
           | None => Ok None
           end
     end.
